@@ -43,12 +43,15 @@ pub struct Ctx {
     pub verbose: bool,
     /// running under a sanitizer interpreter (Miri): tiny workloads, H1 trap passive
     pub miri: bool,
+    /// record H3 statement-boundary events in exec_compare and check their invariants
+    pub log_events: bool,
 
     pub evaluations: u64,
     pub counters: BTreeMap<String, u64>,
     pub maxes: BTreeMap<String, u64>,
     pub sets: BTreeMap<String, BTreeSet<String>>,
     pub distinct: HashSet<u64>,
+    pub shapes: HashSet<u64>,
     pub distinct_cap: usize,
     pub samples: Vec<Json>,
     pub violations: Vec<Violation>,
@@ -77,11 +80,13 @@ impl Ctx {
             replay: None,
             verbose: false,
             miri: false,
+            log_events: false,
             evaluations: 0,
             counters: BTreeMap::new(),
             maxes: BTreeMap::new(),
             sets: BTreeMap::new(),
             distinct: HashSet::new(),
+            shapes: HashSet::new(),
             distinct_cap: 400_000,
             samples: Vec::new(),
             violations: Vec::new(),
@@ -197,6 +202,12 @@ impl Ctx {
             self.distinct.insert(h);
         } else {
             self.count("distinct_cap_reached");
+        }
+    }
+    /// secondary distinct count (e.g. distinct nesting shapes), reported as a counter at the end
+    pub fn nontrivial_shape(&mut self, h: u64) {
+        if self.shapes.len() < 200_000 {
+            self.shapes.insert(h);
         }
     }
     pub fn sample(&mut self, j: Json) {
@@ -322,6 +333,7 @@ impl Ctx {
         }
         j.set("violations", vs);
         j.set("distinct_count", Json::u(self.distinct.len() as u64));
+        j.set("distinct_shapes_in_shard", Json::u(self.shapes.len() as u64));
         j
     }
 
